@@ -96,6 +96,8 @@ func (c *HeartbeatManager) StartHeartbeat() error {
 	// stop an already running heartbeat
 	c.stopHeartbeat()
 
+	verifPoint("Heartbeat.start.afterStop", c)
+
 	stopC := make(chan struct{})
 	c.stopMux.Lock()
 	c.stopHeartbeatC = stopC
@@ -118,6 +120,7 @@ func (c *HeartbeatManager) StopHeartbeat() {
 // needs to be invoked with startStopMux being locked
 func (c *HeartbeatManager) stopHeartbeat() {
 	if c.IsHeartbeatRunning() {
+		verifPoint("Heartbeat.stop.afterCheck", c)
 		close(c.stopHeartbeatC)
 	}
 }
@@ -141,6 +144,10 @@ func (c *HeartbeatManager) updateHeartbeatData(stopC chan struct{}, d time.Durat
 	if d > 2*time.Second {
 		d -= 2 * time.Second
 	}
+	verifPoint("Heartbeat.stream.period", d)
+	verifPoint("Heartbeat.stream.enter", c)
+	defer verifPoint("Heartbeat.stream.exit", c)
+
 	ticker := time.NewTicker(d)
 	for {
 		select {
